@@ -349,11 +349,12 @@ FRONT_MUTATIONS_MAN = ["buffer", "ref", "byte_order", "bit_order", "size_bits", 
                        "description", "cfg"]
 
 
-def mutate_front(rng, ref, manifest):
-    """Make the override of `ref` one the front end rejects (or, for some mutations on some kinds, still accepts)."""
+def mutate_front(rng, ref, manifest, m=None):
+    """Make the override of `ref` one the front end rejects (or, for some mutations on some kinds, still accepts).
+    m: the mutation (default: a random one)."""
     ov = ref["override"]
     if manifest:
-        m = rng.choice(FRONT_MUTATIONS_MAN)
+        m = m or rng.choice(FRONT_MUTATIONS_MAN)
         if m in ("buffer", "ref"):
             ref["override"] = {"kind": m}
         elif m in ("byte_order",):
@@ -386,7 +387,7 @@ def mutate_front(rng, ref, manifest):
             rng.shuffle(rest)
             ref["override"] = dict(head + rest)
         return m
-    m = rng.choice(FRONT_MUTATIONS_DSL)
+    m = m or rng.choice(FRONT_MUTATIONS_DSL)
     kind = ov["kind"]
     if m in ("buffer", "ref"):
         ref["override"] = {"kind": m}
@@ -636,6 +637,31 @@ def corpus_b():
                 [adef.mk_block("A", [R("Ra", 1)], address_offset=0), adef.mk_block("B", [adef.mk_ref("X", "a", bo(100))], address_offset=2000),
                  adef.mk_ref("Y", "b", bo(50000))]))
     expect["cyc_root_chain_with_register"] = "ok"
+    # every forbidden override shape x every kind of override it applies to, once per run in the DSL and in one manifest
+    # syntax (round-robin): "an override tries to change layout properties" is a finite list per front end, and the random
+    # stream reaches each (mutation, kind) pair only now and then
+    frng = random.Random(14)
+    j = 0
+    for manifest, muts in ((False, FRONT_MUTATIONS_DSL), (True, FRONT_MUTATIONS_MAN)):
+        for mut in muts:
+            for kind in ("register", "command", "block"):
+                if kind == "register":
+                    tgt, ov = R("OvTarget", 0, [adef.mk_field("aa", "uint", 0, 4, form="excl")]), {"kind": "register", "address": 40}
+                elif kind == "command":
+                    tgt = adef.mk_command("OvTarget", 0, basic=True)
+                    ov = {"kind": "command", "address": 40}
+                else:
+                    tgt, ov = adef.mk_block("OvTarget", [R("OvInner", 1)], address_offset=0), {"kind": "block", "address_offset": 4000}
+                ref = adef.mk_ref("OvRef", "OvTarget", ov)
+                got = mutate_front(frng, ref, manifest, mut)
+                if got == "none":
+                    continue
+                objs = [tgt, ref]     # (the ref last: the value-less command form is only legal there)
+                if got in ("buffer", "ref"):
+                    objs = [tgt, adef.mk_buffer("OvBuf", 3), ref]
+                syntax = ["json", "yaml", "toml"][j % 3] if manifest else "dsl"
+                j += 1
+                out.append((f"ov_{'man' if manifest else 'dsl'}_{mut}_{kind}", syntax, "Dev", objs))
     cases, metas = [], {}
     for k, (tag, syntax, name, objs) in enumerate(out):
         d = {"config": cfg(), "objects": objs}
